@@ -5,7 +5,7 @@
    same script give every device the same sequence of (time, inputs) and leave equivalent states. *)
 From TV Require Import Base Model.Wiring Model.Ticker Model.Component Model.Sim Model.NSim
   Proofs.WiringP Proofs.TickerP Proofs.SimP Proofs.NonInterfP Proofs.LatestP Proofs.EqvP Proofs.NonInterfLoopP
-  Proofs.InlineP Proofs.InlineLoopP Proofs.Confluence2P.
+  Proofs.ParDevP Proofs.InlineP Proofs.InlineLoopP Proofs.Confluence2P.
 Open Scope Z_scope.
 
 Section NS.
